@@ -176,9 +176,14 @@ Definition type_ok (typ : string) : bool :=
   | None => true
   end.
 
-(* the tail of AttributeValueBase.harvest_element_tree, after children and attributes were stored;
-   a fresh instance has text "" and extension_attributes {xsi:nil: "true"} *)
-Definition av_finish (ext : list ee) (xa : attrs) (x : string) : av_result :=
+(* get_type(): the xsi:type extension attribute or "" *)
+Definition av_get_type (xa : attrs) : string :=
+  match dget qname_eqb xsi_type xa with Some s => s | None => "" end.
+
+(* the tail of AttributeValueBase.harvest_element_tree as it was BEFORE fix c1c601fb (finding C12-F5), after
+   children and attributes were stored; a fresh instance has text "" and extension_attributes {xsi:nil: "true"}:
+   an element without text and children kept the nil marker the constructor had put, whatever the document said *)
+Definition av_finish_f5v0 (ext : list ee) (xa : attrs) (x : string) : av_result :=
   let x1 := if negb (is_empty x) && nonempty ext then strip x else x in
   if is_empty x1 then
     AvOk (if nonempty ext then ddel qname_eqb xsi_nil xa else xa) (Some "")
@@ -196,6 +201,18 @@ Definition av_finish (ext : list ee) (xa : attrs) (x : string) : av_result :=
         let typ' := if is_empty ns then ty else (ns ++ ":" ++ ty)%string in
         AvOk (ddel qname_eqb xsi_nil (av_set_type typ' xa)) (Some x2)
     end.
+
+(* ... and as it is NOW (c1c601fb): an element without text and children that DECLARES A TYPE and is NOT MARKED
+   xsi:nil in the document ([docnil]: XSI_NIL in tree.attrib) is the empty value of that type - set_type(get_type())
+   removes the marker the constructor put and restores the declaration of the xs: / xsd: prefix.  Everything else
+   as before. *)
+Definition av_retyped (docnil : bool) (ext : list ee) (xa : attrs) (x : string) : bool :=
+  is_empty (if negb (is_empty x) && nonempty ext then strip x else x)
+  && negb (nonempty ext) && negb docnil && negb (is_empty (av_get_type xa)).
+
+Definition av_finish (docnil : bool) (ext : list ee) (xa : attrs) (x : string) : av_result :=
+  if av_retyped docnil ext xa x then AvOk (av_set_type (av_get_type xa) xa) (Some "")
+  else av_finish_f5v0 ext xa x.
 
 (* the behaviour before fix 49fc7848 (finding C12-F3): no check of the type name *)
 Definition av_finish_v0 (ext : list ee) (xa : attrs) (x : string) : av_result :=
@@ -272,7 +289,7 @@ Section Model.
     match c_kind ci with
     | KPlain => Obj c (fst ax) (fst ke) (snd ke) (snd ax) (text_opt x)
     | KAttrValue =>
-        match av_finish (snd ke) (snd ax) x with
+        match av_finish (dmem qname_eqb xsi_nil a) (snd ke) (snd ax) x with
         | AvOk xa tx => Obj c (fst ax) (fst ke) (snd ke) xa tx
         | _ => Obj c (fst ax) (fst ke) (snd ke) (snd ax) (Some "")
         end
@@ -327,7 +344,7 @@ Section Model.
                             end) kids in
             let own := match c_kind ci with
                        | KPlain => SOk
-                       | KAttrValue => match av_finish (ext_of ci kids) (xattrs_of ci a) x with
+                       | KAttrValue => match av_finish (dmem qname_eqb xsi_nil a) (ext_of ci kids) (xattrs_of ci a) x with
                                        | AvOk _ _ => SOk
                                        | AvRaise => SRaise
                                        | AvUnmodelled => SUnmodelled
